@@ -305,3 +305,66 @@ Example ex_templates_follow_present_clusters :
   map (fun g => fst (fst (fst g))) (groups (sorted_table ex_choose exGap)) = [1; 3] /\
   template_ranges ex_choose exGap = [(0, 1); (1, 2)].
 Proof. vm_compute. repeat split. Qed.
+
+(* ---- the hypotheses of the theorems above hold on the concrete inputs (vm_compute) ---- *)
+Lemma NoDup_skipn {A} n (a : list A) : NoDup a -> NoDup (skipn n a).
+Proof.
+  revert a. induction n as [|n IH]; intros a H; [exact H|].
+  destruct a as [|x a]; [constructor|]. cbn. apply IH. now inversion H.
+Qed.
+
+Lemma ex_choose_ok : choose_ok ex_choose.
+Proof.
+  intros i a k Hk Hnd. unfold ex_choose, zlen in *.
+  split; [rewrite skipn_length; lia|]. split.
+  - now apply NoDup_skipn.
+  - intros x Hx. rewrite <- (firstn_skipn (length a - Z.to_nat k) a). apply in_or_app. now right.
+Qed.
+
+Example ex_guards : guards exP.
+Proof.
+  unfold guards. cbv beta iota delta [exP c_ns c_size c_to c_L c_maxwf c_spikes c_geom].
+  split; [lia|]. split; [lia|]. split; [lia|]. split; [left; lia|].
+  split; [cbv [map sp_sample fst]; repeat (constructor; try lia)|]. split; [lia|].
+  cbv [sp_chan snd zlen length]. repeat (constructor; try lia).
+Qed.
+
+(* so every guarded theorem applies to exP / ex_choose, e.g.: *)
+Example ex_window_applies : exists mem, traces Z (fun ch s => 10 * s + ch) ex_choose exP = Some mem /\
+  length mem = 4%nat.
+Proof.
+  destruct (C13_window_correct Z (fun ch s => 10 * s + ch) ex_choose exP ex_guards ex_choose_ok 0%nat)
+    as [mem [H [Hl _]]]; [vm_compute; lia|].
+  exists mem. split; [exact H|]. rewrite Hl. reflexivity.
+Qed.
+
+Example ex_table_nonempty : table ex_choose exP <> [].
+Proof. vm_compute. discriminate. Qed.
+
+Example ex_loader_hyps :
+  zlen (c_geom exP) <= 32768 /\
+  (exists mem, traces Z (fun ch s => 10 * s + ch) ex_choose exP = Some mem) /\
+  iwc (sorted_table ex_choose exP) = Some [0; 1; 0; 1] /\
+  chan_map ex_choose exP = Some [[1; 2; 3]; [2; 3; 4]; [0; 1; 4]; [0; 1; 2]] /\
+  load_rows (sorted_table ex_choose exP) [0; 1; 0; 1] (Some [2]) (Some [1]) = [3].
+Proof.
+  split; [vm_compute; discriminate|]. split; [eexists; vm_compute; reflexivity|].
+  repeat split; vm_compute; reflexivity.
+Qed.
+
+(* extract_wfs_array: hypotheses of C13_extract_array_window on a window touching both array ends *)
+Example ex_extract_array_hyps :
+  let P := mkCfg 20 4 3 8 0 1 40000 1 [(0, 0); (0, 150); (0, 300); (0, 450)] [] in
+  let rows := [mkRow 0 3 0 0 0; mkRow 0 14 0 3 0] in
+  rows <> [] /\ 0 <= c_to P <= c_L P /\
+  (forall r, In r rows -> c_to P <= r_sample r /\ r_sample r + (c_L P - c_to P) <= 20 /\
+                          0 <= r_chan r < zlen (c_geom P)) /\
+  r_sample (last rows drow) + (c_L P - c_to P) < 20 /\
+  option_map (map (fun w => map (fun row => nth 0 row None) w))
+             (extract_array Z (fun ch s => 10 * s + ch) P (cidx P) 20 rows) =
+  Some [[Some 0; Some 1; None]; [Some 112; Some 113; None]].
+Proof.
+  cbv zeta. split; [discriminate|]. split; [vm_compute; split; discriminate|]. split.
+  - intros r [<-|[<-|[]]]; vm_compute; repeat split; congruence.
+  - split; vm_compute; reflexivity.
+Qed.
